@@ -518,3 +518,16 @@ func (a *ABI) CallCount() int {
 	defer a.mu.Unlock()
 	return len(a.Calls)
 }
+
+// AlignTo rebuilds the application's (height, root) stack from the state roots of the
+// engine's chain (harness-level recovery after a simulated crash; the engine itself leaves
+// that to labi.Init, which is property C16's subject).
+func (a *ABI) AlignTo(roots [][]byte) {
+	a.mu.Lock()
+	defer a.mu.Unlock()
+	a.stack = a.stack[:0]
+	for h, r := range roots {
+		a.stack = append(a.stack, appLevel{Height: uint32(h), Root: append([]byte{}, r...)})
+	}
+	a.ctx = nil
+}
